@@ -22,7 +22,7 @@ def if_then_else(cond, truev, falsev):
         raise RuntimeError("Wrong type for if_then_else condition")
 
     if callable(truev): truev = guarded(cond)(truev)()
-    if callable(falsev): falsev = guarded(-cond)(falsev)()        
+    if callable(falsev): falsev = guarded(~cond)(falsev)()        
 
     if isinstance(truev, list):
         return [if_then_else(cond, truevi, falsevi) for (truevi,falsevi) in zip(truev,falsev)]
@@ -30,6 +30,13 @@ def if_then_else(cond, truev, falsev):
     if isinstance(truev, LinCombFxp):
         falsev = LinCombFxp._ensurefxp(falsev)
     return falsev + cond * (truev - falsev)
+
+def _tobool(cond):
+    """ Secret conditions are carried as LinCombBool, as if_then_else and the boolean operators require """
+    return LinCombBool._ensurebool(cond) if isinstance(cond, LinComb) else cond
+
+def _not(cond):
+    return ~cond if isinstance(cond, LinCombBool) else 1-cond
 
 class BranchingValues:
     def __init__(self):
@@ -81,6 +88,7 @@ class BranchContext:
         
     def enter(self, nwcond):
         #if not isinstance(nwcond,LinComb): nwcond = LinComb.ZERO+nwcond
+        nwcond = _tobool(nwcond)
         self.bak = self.ctx.backup()        
         self.cond = nwcond
         self.origguard = add_guard(nwcond)
@@ -90,7 +98,8 @@ class BranchContext:
 
 class IfContext(BranchContext):
     def __init__(self, cond, ctx):
-        self.icond = 1-cond # should be before super().__init__ because may be guarded
+        cond = _tobool(cond)
+        self.icond = _not(cond) # should be before super().__init__ because may be guarded
         super().__init__(cond, ctx)
         
     def _elif(self, nwcond):
@@ -98,8 +107,8 @@ class IfContext(BranchContext):
             raise ValueError("argument to _elif should be a function")
             
         self.exit()
-        nwcond = nwcond()
-        nwicond = self.icond&(1-nwcond) # need to calculate before entering guard
+        nwcond = _tobool(nwcond())
+        nwicond = self.icond&_not(nwcond) # need to calculate before entering guard
         self.enter(self.icond&nwcond)
         self.icond = nwicond
         
@@ -156,7 +165,7 @@ class WhileContext(BranchContext):
     
     def _while(self, nwcond):
         self.exit()
-        self.enter(self.cond&nwcond)
+        self.enter(self.cond&_tobool(nwcond))
         
     def end(self):
         super().end()
@@ -177,7 +186,7 @@ def _endwhile(ctx=None):
     getcontext(ctx).stack.pop().end()
     
 def _breakif(cond,ctx=None):
-    getcontext(ctx).stack[-1]._while(1-cond)
+    getcontext(ctx).stack[-1]._while(_not(_tobool(cond)))
 
 class ObliviousIterator():
     def __init__(self, start, stop, max, ctx, checkstopmax):
